@@ -52,7 +52,10 @@ pub fn scenarios(tier: &str) -> Vec<Scenario> {
         m_reorg(3, RTarget::Back(W)),
         m_reorg(3, RTarget::Back(W + 1)),
     ];
-    let edge_no_restart: Vec<Macro> = edge.iter().filter(|m| m.kind != Kind::Dev(2)).cloned().collect();
+    // without restarts: one step deeper, so one reorg depth less (W-1 stays in the scenario with restarts)
+    let edge_no_restart: Vec<Macro> = edge.iter().filter(|m| m.kind != Kind::Dev(2) && m.name != format!("R-{}", W - 1)).cloned().collect();
+    // with restarts (a real close / open each): without the two re-deployment blocks
+    let edge: Vec<Macro> = edge.into_iter().filter(|m| !m.name.contains("deploy X")).collect();
     vec![
         Scenario {
             name: "window-edge-after-commit-clear-restart".into(),
